@@ -624,7 +624,7 @@ Fixpoint skipto_scan (fail : exn -> prg) (fuel : nat) (e : expr) (target : expr)
                         else fail x
              end)) in
       match failon with
-      | Some fo => can_parse_next fail fo s tmploc false (fun b => if b then k tmploc (* `break`: leaves the while loop, not a failure *) else after_failon)
+      | Some fo => can_parse_next fail fo s tmploc false (fun b => if b then nomatch (* the SkipTo is not a match (since /repo's fix of F-01b: `raise`, was `break`) *) else after_failon)
       | None => after_failon
       end
   end.
